@@ -1286,8 +1286,54 @@ def oracle_C21(run):
     return out
 
 
+# ---------------------------------------------------------------------------
+# C27  peer-controlled retained state stays bounded
+# ---------------------------------------------------------------------------
+NON_OPENING = (wire.PRIORITY, wire.WINDOW_UPDATE, wire.RST_STREAM, wire.PING)
+
+
+def oracle_C27(run):
+    out = []
+    for i, (op, ol, ml, obs) in enumerate(run.log):
+        if obs is None or not is_recv(op):
+            continue
+        c = conn_of(op)
+        data = obs.get('xfer_data') if op['op'] == 'xfer' else op['data']
+        before, after = obs['snap_before'], obs['snap_after']
+        rc = run.world.conns[c]
+        conn = rc.conn
+        # frames that do not open streams allocate no stream state (judged when the whole delivery is such frames,
+        # arrives on an empty frame buffer, and the connection has seen the preface)
+        rfs = raw_frames(data) if before_buf_empty(run, i, c) and buflen(ol) == '0' else None
+        if rfs and all(f['type'] in NON_OPENING or f['type'] > 10 for f in rfs):
+            if len(after['streams']) > len(before['streams']):
+                out.append(fail('non-opening-frames-allocated-streams', i, before=len(before['streams']), after=len(after['streams'])))
+                continue
+            if before.get('closed') is not None and after.get('closed') is not None and len(after['closed']) > len(before['closed']):
+                out.append(fail('non-opening-frames-grew-closed-stream-memory', i))
+                continue
+        # the receive buffer never holds more than one incomplete frame (a frame declares at most 2^24-1 bytes; the
+        # library checks the declared length against MAX_FRAME_SIZE only once the frame is complete, so the bound is
+        # the 24-bit one, not the setting)
+        if obs['res'].startswith('ok'):
+            n = int(buflen(ol)) if buflen(ol).isdigit() else 0
+            if n >= 9 + 2**24:
+                out.append(fail('receive-buffer-exceeds-one-frame', i, buffered=n))
+                continue
+        # closed streams do not pile up in the live table: after a delivery that opened a stream, no other stream of
+        # the table that was CLOSED before the delivery is still there
+        opened = [s for s in after['streams'] if s not in before['streams']]
+        if opened:
+            stale = [s for s in after['streams'] if s in before['streams'] and before['streams'][s][0] == 'CLOSED'
+                     and s % 2 == opened[0] % 2]
+            if stale and obs['res'].startswith('ok'):
+                out.append(fail('closed-streams-pile-up', i, stale=stale[:5], opened=opened[:3]))
+                continue
+    return out
+
+
 ORACLES = {
     'C02': oracle_C02, 'C03': oracle_C03, 'C04': oracle_C04, 'C05': oracle_C05, 'C07': oracle_C07, 'C08': oracle_C08,
     'C09': oracle_C09, 'C10': oracle_C10, 'C12': oracle_C12, 'C13': oracle_C13, 'C17': oracle_C17, 'C18': oracle_C18,
-    'C19': oracle_C19, 'C21': oracle_C21, 'C26': oracle_C26, 'C29': oracle_C29,
+    'C19': oracle_C19, 'C21': oracle_C21, 'C26': oracle_C26, 'C27': oracle_C27, 'C29': oracle_C29,
 }
